@@ -165,8 +165,8 @@ Example C14_auto_capture_ex :
 Proof. vm_compute. split; reflexivity. Qed.
 
 (* 4'. round trip for ALL supported values, generic in the table: unconditional and conditional fields (present iff
-   the bit of the preceding mode / flags field is set, flags >= 0), nested bare and boxed objects, vectors of bare /
-   boxed objects, Bool / # / int / long / int128 / int256 / bytes / string leaves.
+   the bit of the preceding mode / flags field is set, flags >= 0), nested bare and boxed objects, vectors of base
+   types / bare objects / boxed objects, Bool / # / int / long / int128 / int256 / bytes / string leaves.
    s_encode tbl m name fs = Some bytes says: {'@type': name, fs...} is well-typed (nesting depth < m) and bytes is
    its TL encoding.  tbl_ok: whatever a name resolves to has distinct field names, a 4-byte id, and its id resolves
    back to it (proved for the generated table: C14_table_ok). *)
@@ -221,25 +221,76 @@ Example C14_roundtrip_ex_vector_boxed :
   no_auto_capture tl_table (TVObj "adnl.addressList" fs) = true.
 Proof. vm_compute. split; reflexivity. Qed.
 
-(* NOT covered, and false: vectors of int / long / int256 / bytes / string (33 of the 114 vector fields of the
-   generated table).  Parsing liteServer.getConfigParams {param_list = [5; 6]} returns two empty objects and
-   stops 8 bytes before the end. *)
-Theorem C14_vector_int_refuted :
-  match serialize tl_table 4 "liteServer.getConfigParams" vector_int_witness with
-  | Ok bytes =>
-      List.length bytes = 100%nat /\
-      lastn_is bytes [2; 0; 0; 0; 5; 0; 0; 0; 6; 0; 0; 0]%N = true /\
-      match deserialize tl_table 4 bytes with
-      | Ok (TVObj _ fs, used) => used = 92%nat /\ assoc fs "param_list" = Some (TVVec [TVObj "" []; TVObj "" []])
-      | _ => False
-      end
-  | Err _ => False
-  end.
-Proof. exact vector_int_refuted. Qed.
-Print Assumptions C14_vector_int_refuted.
+(* vectors of base types: (vector int), the case repaired in the library (elements used to come back as empty
+   objects without consuming bytes): [5; -6] comes back as [5; -6] and all 100 bytes are consumed *)
+Example C14_roundtrip_ex_vector_int :
+  let fs := [("mode", TVInt 0);
+             ("id", TVObj "tonNode.blockIdExt" [("workchain", TVInt (-1)); ("shard", TVInt (-9223372036854775808));
+                                                ("seqno", TVInt 7); ("root_hash", TVHex (repeat 1%N 32));
+                                                ("file_hash", TVHex (repeat 2%N 32))]);
+             ("param_list", TVVec [TVInt 5; TVInt (-6)])]%string in
+  let bytes := ([25; 28; 17; 42;  0; 0; 0; 0;  255; 255; 255; 255;  0; 0; 0; 0; 0; 0; 0; 128;  7; 0; 0; 0] ++
+                repeat 1 32 ++ repeat 2 32 ++ [2; 0; 0; 0;  5; 0; 0; 0;  250; 255; 255; 255])%N in
+  s_encode tl_table 4 "liteServer.getConfigParams" fs = Some bytes /\
+  no_auto_capture tl_table (TVObj "liteServer.getConfigParams" fs) = true /\
+  serialize tl_table 4 "liteServer.getConfigParams" fs = Ok bytes /\
+  deserialize tl_table 4 bytes = Ok (TVObj "liteServer.getConfigParams" fs, 100%nat).
+Proof. vm_compute. repeat split; reflexivity. Qed.
 
-Theorem C14_unsupported_vectors :
+(* (vector int256) *)
+Example C14_roundtrip_ex_vector_int256 :
+  let fs := [("library_list", TVVec [TVHex (repeat 3%N 32); TVHex (repeat 4%N 32)])]%string in
+  let bytes := ([98; 182; 34; 209;  2; 0; 0; 0] ++ repeat 3 32 ++ repeat 4 32)%N in
+  s_encode tl_table 3 "liteServer.getLibraries" fs = Some bytes /\
+  no_auto_capture tl_table (TVObj "liteServer.getLibraries" fs) = true /\
+  serialize tl_table 3 "liteServer.getLibraries" fs = Ok bytes /\
+  deserialize tl_table 3 bytes = Ok (TVObj "liteServer.getLibraries" fs, 72%nat).
+Proof. vm_compute. repeat split; reflexivity. Qed.
+
+(* (vector bytes): each element framed like a bytes field (254 bytes: long prefix) *)
+Example C14_roundtrip_ex_vector_bytes :
+  let fs := [("value", TVVec [TVBytes [1; 2; 3]%N; TVBytes []; TVBytes (repeat 9%N 254)])]%string in
+  let bytes := ([211; 27; 139; 75;  3; 0; 0; 0;  3; 1; 2; 3;  0; 0; 0; 0;  254; 254; 0; 0] ++ repeat 9 254 ++ [0; 0])%N in
+  s_encode tl_table 3 "testVectorBytes" fs = Some bytes /\
+  no_auto_capture tl_table (TVObj "testVectorBytes" fs) = true /\
+  serialize tl_table 3 "testVectorBytes" fs = Ok bytes /\
+  deserialize tl_table 3 bytes = Ok (TVObj "testVectorBytes" fs, 276%nat).
+Proof. vm_compute. repeat split; reflexivity. Qed.
+
+(* (vector string), followed by other fields *)
+Example C14_roundtrip_ex_vector_string :
+  let fs := [("domains", TVVec [TVStr [97; 46; 116; 111; 110]%N; TVStr [195; 169]%N]);
+             ("ip", TVInt 1); ("port", TVInt 80); ("adnl_id", TVObj "adnl.id.short" [("id", TVHex (repeat 5%N 32))])]%string in
+  let bytes := ([167; 226; 125; 197;  2; 0; 0; 0;  5; 97; 46; 116; 111; 110; 0; 0;  2; 195; 169; 0;
+                 1; 0; 0; 0;  80; 0; 0; 0] ++ repeat 5 32)%N in
+  s_encode tl_table 3 "http.server.host" fs = Some bytes /\
+  no_auto_capture tl_table (TVObj "http.server.host" fs) = true /\
+  serialize tl_table 3 "http.server.host" fs = Ok bytes /\
+  deserialize tl_table 3 bytes = Ok (TVObj "http.server.host" fs, 60%nat).
+Proof. vm_compute. repeat split; reflexivity. Qed.
+
+(* what the generated table contains that is still unsupported: none of its 114 vector fields; only the 25
+   constructors with a field type the library itself cannot classify *)
+Theorem C14_table_unsupported :
   List.length (flat_map (fun c => filter (fun a => match a_ty a with TVector _ _ _ => true | _ => false end) (c_args c)) tl_table) = 114%nat /\
-  List.length (flat_map (fun c => filter (fun a => match a_ty a with TVector el en nm => negb (s_vector_supported el en nm) | _ => false end) (c_args c)) tl_table) = 33%nat.
-Proof. exact unsupported_vectors. Qed.
-Print Assumptions C14_unsupported_vectors.
+  List.length (flat_map (fun c => filter (fun a => match a_ty a with TVector el en nm => negb (s_vector_supported el en nm) | _ => false end) (c_args c)) tl_table) = 0%nat /\
+  list_string_eqb (map c_name (filter (fun c => existsb (fun a => ty_unsupported (a_ty a)) (c_args c)) tl_table))
+                  tl_unsupported_ctors = true.
+Proof. exact table_unsupported. Qed.
+Print Assumptions C14_table_unsupported.
+
+(* ill-typed input, outside the theorems (their guard is flags >= 0): the model follows the code for a negative
+   mode too.  bin(-1) = '-0b1': position 1 is the '-', which is not '0', so lt (bit 1) is read;
+   bin(-2) = '-0b10': positions 1 and 2 count as set, utime is read past the end (0) and 36 of 24 bytes are "consumed" *)
+Example C14_negative_mode_ex :
+  deserialize tl_table 3 ([0x1e; 0xf7; 0xc8; 0xfa;  255; 255; 255; 255] ++ repeat 0 16 ++ [5; 0; 0; 0; 0; 0; 0; 0])%N
+  = Ok (TVObj "liteServer.lookupBlock"
+          [("mode", TVInt (-1));
+           ("id", TVObj "tonNode.blockId" [("workchain", TVInt 0); ("shard", TVInt 0); ("seqno", TVInt 0)]);
+           ("lt", TVInt 5)]%string, 32%nat) /\
+  deserialize tl_table 3 ([0x1e; 0xf7; 0xc8; 0xfa;  254; 255; 255; 255] ++ repeat 0 16)%N
+  = Ok (TVObj "liteServer.lookupBlock"
+          [("mode", TVInt (-2));
+           ("id", TVObj "tonNode.blockId" [("workchain", TVInt 0); ("shard", TVInt 0); ("seqno", TVInt 0)]);
+           ("lt", TVInt 0); ("utime", TVInt 0)]%string, 36%nat).
+Proof. vm_compute. split; reflexivity. Qed.
